@@ -360,6 +360,7 @@ type c16Case struct {
 	Now      int64           `json:"now_ms,omitempty"`
 	After    int64           `json:"after_ms,omitempty"`
 	Attempts int             `json:"attempts,omitempty"`
+	Shifted  []string        `json:"probes_with_offset_or_at_modifier,omitempty"`
 	Instant  []c16InstantReq `json:"instant_requests,omitempty"`
 	Range    []c16RangeReq   `json:"range_requests,omitempty"`
 	db0      c16DB
@@ -489,7 +490,25 @@ func c16GenDB(r *rand.Rand, t0, lb int64, classes *[]string, withUp bool) c16DB 
 	return db
 }
 
+// c16GenSelector: a vector selector, one time in six with an `offset` (shorter and longer than the recent presence edges), so
+// offsets occur in every position a selector can take: top level, join operands, unless operands, nested
 func c16GenSelector(r *rand.Rand) string {
+	s := c16GenSelectorBase(r)
+	if r.Intn(6) == 0 {
+		s += " offset " + pick(r, []string{"3m", "10m", "1h", "1h"})
+	}
+	return s
+}
+
+// c16Range: selector[range], keeping an offset behind the range
+func c16Range(sel, rng string) string {
+	if i := strings.Index(sel, " offset "); i >= 0 {
+		return sel[:i] + rng + sel[i:]
+	}
+	return sel + rng
+}
+
+func c16GenSelectorBase(r *rand.Rand) string {
 	m := pick(r, c16Metrics)
 	var ms []string
 	if r.Intn(2) == 0 {
@@ -570,13 +589,16 @@ func c16GenExpr(r *rand.Rand) (string, string, bool, bool) {
 	case 2:
 		return s1 + " > 0", "comparison", true, false
 	case 3:
-		return "rate(" + s1 + "[5m]) > 0", "rate", true, false
+		return "rate(" + c16Range(s1, "[5m]") + ") > 0", "rate", true, false
 	case 4:
 		return s1 + " / " + s2, "binary", true, false
 	case 5:
 		return s1 + " * on(job) group_left() " + s2, "join", true, false
 	case 6:
-		return s1 + " offset 10m", "offset", true, false
+		if !strings.Contains(s1, " offset ") {
+			s1 += " offset 10m"
+		}
+		return s1, "offset", true, false
 	case 7:
 		return s1 + " / " + s1, "duplicate", true, false
 	case 8:
@@ -601,7 +623,7 @@ func c16GenExpr(r *rand.Rand) (string, string, bool, bool) {
 	case 14:
 		return "(" + s1 + " or " + s2 + ") > 0", "or", false, false
 	default:
-		return "max_over_time(" + s1 + "[10m])", "over_time", true, false
+		return "max_over_time(" + c16Range(s1, "[10m]") + ")", "over_time", true, false
 	}
 }
 
@@ -761,6 +783,7 @@ func c16Shift(c *c16Case) {
 		c.Others = append(c.Others, shift(o))
 	}
 	c.Checked, c.Problems, c.Other, c.Instant, c.Range, c.Fail, c.Known, c.nontriv = nil, nil, nil, nil, nil, "", "", false
+	c.Shifted = nil
 }
 
 func c16Ptrs(dbs []c16DB) []*c16DB {
@@ -885,6 +908,34 @@ func c16RunOnce(c *c16Case) {
 	c.Instant = append([]c16InstantReq(nil), reqLog.Instant...)
 	c.Range = append([]c16RangeReq(nil), reqLog.Range...)
 	reqLog.mu.Unlock()
+	// every probe asks about NOW (instant) or about the window ending now (range): a probe whose selector carries an offset or
+	// an @ modifier asks about another time
+	seenQ := map[string]bool{}
+	var probes []string
+	for _, ir := range c.Instant {
+		probes = append(probes, ir.Query)
+	}
+	for _, rr := range c.Range {
+		probes = append(probes, rr.Query)
+	}
+	for _, q := range probes {
+		if seenQ[q] {
+			continue
+		}
+		seenQ[q] = true
+		pe, err := promParser.ParseExpr(q)
+		if err != nil {
+			c.Shifted = append(c.Shifted, q)
+			continue
+		}
+		promParser.Inspect(pe, func(n promParser.Node, _ []promParser.Node) error {
+			if vs, ok := n.(*promParser.VectorSelector); ok && (vs.OriginalOffset != 0 || vs.Timestamp != nil || vs.StartOrEnd != 0) {
+				c.Shifted = append(c.Shifted, q)
+			}
+			return nil
+		})
+	}
+	sort.Strings(c.Shifted)
 	sort.SliceStable(c.Range, func(i, j int) bool {
 		if c.Range[i].Query != c.Range[j].Query {
 			return c.Range[i].Query < c.Range[j].Query
@@ -1390,8 +1441,8 @@ func c16Coq(c *c16Case) string {
 	}
 	st := fmt.Sprintf("(mkSet %s %s %s %s %s)", coqZ(c16ParseDur(c.LookbackRange)*1_000_000), coqZ(c16ParseDur(c.LookbackStep)*1_000_000),
 		coqList(ignored), coqList(elsewhere), coqStr("up"))
-	return fmt.Sprintf("{| c_id := %s; c_db := %s; c_others := %s; c_expr := %s; c_checked_pos := %s; c_now := %s; c_after := %s; c_instant := %s; c_range := %s; c_settings := %s; c_rules := %s; c_sels := %s; c_re := %s; c_observed := %s |}",
-		coqN(c.ID), c16CoqDB(&c.DB), coqList(others), exprTerm, coqList(poss), coqZ(c.Now*1_000_000), coqZ(c.After*1_000_000), coqList(inst), coqList(rng), st, coqList(rules), coqList(sels), coqList(table), coqList(obs))
+	return fmt.Sprintf("{| c_id := %s; c_db := %s; c_others := %s; c_expr := %s; c_checked_pos := %s; c_shifted_probes := %s; c_now := %s; c_after := %s; c_instant := %s; c_range := %s; c_settings := %s; c_rules := %s; c_sels := %s; c_re := %s; c_observed := %s |}",
+		coqN(c.ID), c16CoqDB(&c.DB), coqList(others), exprTerm, coqList(poss), coqStrList(c.Shifted), coqZ(c.Now*1_000_000), coqZ(c.After*1_000_000), coqList(inst), coqList(rng), st, coqList(rules), coqList(sels), coqList(table), coqList(obs))
 }
 
 // ---------------------------------------------------------------------------------------------
